@@ -284,4 +284,3 @@ func vfAnswer(s *Server, q vfReq) vfAns {
 	r := vfGet(s, q.URL)
 	return vfAns{r.Code, r.Hdr.Get("Content-Type"), vfHash(r.Body), len(r.Body)}
 }
-
